@@ -41,6 +41,19 @@ pub struct DAlt {
     pub marks: Vec<(u8, bool)>,
 }
 
+/// how a nonterminal gets its value
+#[derive(Clone, Copy, PartialEq, Eq, Debug, Serialize, Deserialize, Default)]
+pub enum NtKind {
+    /// declared `: V`, alternatives styled by `DAlt`
+    #[default]
+    Value,
+    /// no type annotation, one alternative of 2..3 symbols without action and without `<>`: the
+    /// documented default is the tuple of all symbols; users bind it with `<(a, b):N>`
+    Tuple,
+    /// declared `: ()`, alternatives without actions: the documented default is `()`
+    Unit,
+}
+
 #[derive(Clone, PartialEq, Eq, Debug, Serialize, Deserialize)]
 pub struct DG {
     pub skel: Cfg,
@@ -48,11 +61,17 @@ pub struct DG {
     pub alts: Vec<Vec<DAlt>>,
     /// terminal rendered as Tok::Mark (fallible actions fail on it)
     pub mark_term: Option<u8>,
+    /// per nonterminal (empty = all `Value`)
+    #[serde(default)]
+    pub kinds: Vec<NtKind>,
 }
 
 impl DG {
     pub fn plain(skel: &Cfg, style: Style) -> DG {
-        DG { skel: skel.clone(), inline: vec![false; skel.nts], alts: skel.alts.iter().map(|a| a.iter().map(|_| DAlt { style, marks: vec![] }).collect()).collect(), mark_term: None }
+        DG { skel: skel.clone(), inline: vec![false; skel.nts], alts: skel.alts.iter().map(|a| a.iter().map(|_| DAlt { style, marks: vec![] }).collect()).collect(), mark_term: None, kinds: vec![] }
+    }
+    pub fn kind(&self, n: usize) -> NtKind {
+        self.kinds.get(n).copied().unwrap_or_default()
     }
     pub fn alt_id(&self, nt: usize, ai: usize) -> u32 {
         (self.skel.alts[..nt].iter().map(|a| a.len()).sum::<usize>() + ai) as u32
@@ -107,9 +126,19 @@ impl DG {
             if self.inline[n] {
                 s.push_str("#[inline]\n");
             }
-            let _ = writeln!(s, "{}{}: V = {{", if g.pubs.contains(&n) { "pub " } else { "" }, Cfg::nt_name(n));
+            let ty = match self.kind(n) {
+                NtKind::Value => ": V",
+                NtKind::Tuple => "",
+                NtKind::Unit => ": ()",
+            };
+            let _ = writeln!(s, "{}{}{} = {{", if g.pubs.contains(&n) { "pub " } else { "" }, Cfg::nt_name(n), ty);
             for (ai, rhs) in g.alts[n].iter().enumerate() {
-                let _ = writeln!(s, "    {},", self.render_alt(n, ai, rhs));
+                if self.kind(n) == NtKind::Value {
+                    let _ = writeln!(s, "    {},", self.render_alt(n, ai, rhs));
+                } else {
+                    // no action, no selection: the documented default value
+                    let _ = writeln!(s, "    {},", rhs.iter().map(|x| Cfg::sym_text(*x)).collect::<Vec<_>>().join(" "));
+                }
             }
             s.push_str("};\n");
         }
@@ -139,7 +168,17 @@ impl DG {
             }
             if gap < rhs.len() {
                 let st = Cfg::sym_text(rhs[gap]);
+                // a tuple-valued child is bound with a tuple pattern `<(a, b):N>`
+                let tuple_arity = match rhs[gap] {
+                    Sym::N(m) if self.kind(m as usize) == NtKind::Tuple => Some(self.skel.alts[m as usize][0].len()),
+                    _ => None,
+                };
                 match d.style {
+                    Style::Named | Style::Fallible if tuple_arity.is_some() => {
+                        let parts: Vec<String> = (0..tuple_arity.unwrap()).map(|k| format!("t{}_{}", gap, k)).collect();
+                        items.push(format!("<({}):{}>", parts.join(", "), st));
+                        names.push(format!("({})", parts.join(", ")));
+                    }
                     Style::Named | Style::Fallible => {
                         let nm = format!("v{}", gap);
                         items.push(format!("<{}:{}>", nm, st));
@@ -397,6 +436,12 @@ impl<'a> Ev<'a> {
         if children.iter().any(|c| c.ntoks() == 0) || children.is_empty() {
             self.nontrivial = true;
         }
+        match self.dg.kind(*nt) {
+            NtKind::Value => {}
+            // tuple of all symbols (codes as in the prelude's ToV impls), no action runs
+            NtKind::Tuple => return Some(Val::N(902 + children.len() as u32, vals)),
+            NtKind::Unit => return Some(Val::N(903, vec![])),
+        }
         let d = &self.dg.alts[*nt][*ai];
         let id = self.dg.alt_id(*nt, *ai);
         let m = children.len();
@@ -482,6 +527,12 @@ pub trait ToV { fn v(self) -> V; }
 impl ToV for V { fn v(self) -> V { self } }
 impl ToV for Tok { fn v(self) -> V { V::T(self) } }
 impl ToV for usize { fn v(self) -> V { V::L(self) } }
+impl<T: ToV> ToV for Vec<T> { fn v(self) -> V { V::N(900, self.into_iter().map(|x| x.v()).collect()) } }
+impl<T: ToV> ToV for Option<T> { fn v(self) -> V { match self { Some(x) => V::N(901, vec![x.v()]), None => V::N(902, vec![]) } } }
+impl ToV for () { fn v(self) -> V { V::N(903, vec![]) } }
+impl<A: ToV, B: ToV> ToV for (A, B) { fn v(self) -> V { V::N(904, vec![self.0.v(), self.1.v()]) } }
+impl<A: ToV, B: ToV, C: ToV> ToV for (A, B, C) { fn v(self) -> V { V::N(905, vec![self.0.v(), self.1.v(), self.2.v()]) } }
+impl ToV for lalrpop_util::ErrorRecovery<usize, Tok, String> { fn v(self) -> V { V::N(906, self.dropped_tokens.into_iter().map(|(_, t, _)| V::T(t)).collect()) } }
 pub trait Vs { fn vs(self) -> Vec<V>; }
 impl Vs for () { fn vs(self) -> Vec<V> { vec![] } }
 impl Vs for V { fn vs(self) -> Vec<V> { vec![self] } }
